@@ -181,3 +181,116 @@ def straightline(rng, B, **kw):
     g = Gen(rng, B, **kw)
     code = g.build()
     return code, g
+
+
+UNASSIGNED = [0x0c, 0x0f, 0x1e, 0x21, 0x2f, 0x49, 0x4f, 0x5c, 0x5e, 0xa5, 0xb0, 0xef, 0xf6, 0xfb]
+KINDS = ["valid", "valid", "valid", "pushdata", "nonjumpdest", "oob", "oob-far", "big32", "big64", "max", "computed-valid",
+         "computed-bad", "zero"]
+
+
+def controlflow(rng, underflow_p=0.0, symbolic_p=0.0, big_stack_p=0.0):
+    a = evm.Asm()
+    nblocks = rng.randint(2, 7)
+    feats = set()
+    canaries = []
+    has_jd = {i: (rng.random() < 0.75) for i in range(1, nblocks + 1)}
+
+    def target_push(kind, j):
+        name = "L%d" % j
+        if kind == "valid":
+            if has_jd[j]:
+                a.push_label(name)
+            else:
+                a.push_label(name)
+                feats.add("target:nonjumpdest")
+                return
+        elif kind == "pushdata":
+            a.push_label("PD")
+        elif kind == "nonjumpdest":
+            a.push_expr(lambda L, n=name: L[n] + 1, 2)
+        elif kind == "oob":
+            a.push_expr(lambda L: L["__len__"] + rng_k, 2)
+        elif kind == "oob-far":
+            a.push_expr(lambda L: 0xffff, 2)
+        elif kind == "big32":
+            a.push_expr(lambda L, n=name: (rng_hi << 32) | L[n], 8)
+        elif kind == "big64":
+            a.push_expr(lambda L, n=name: (rng_hi << 64) | L[n], 12)
+        elif kind == "max":
+            a.emit(evm.M256)
+        elif kind == "zero":
+            a.emit(("push", 0, 1))
+        elif kind == "symbolic":
+            a.emit(rng.choice([("push", 0, 1), 4, 36]), "CALLDATALOAD")
+        elif kind == "computed-valid":
+            c = rng.randint(1, 9)
+            a.push_expr(lambda L, n=name, c=c: L[n] - c, 2)
+            a.emit(c, "ADD")
+        elif kind == "computed-bad":
+            c = rng.randint(1, 9)
+            a.push_expr(lambda L, n=name, c=c: L[n] + 1 - c, 2)
+            a.emit(c, "ADD")
+        feats.add("target:" + kind)
+
+    rng_k = rng.randint(0, 40)
+    rng_hi = rng.randint(1, 0xffff)
+    # a push whose immediate contains JUMPDEST bytes; PD names the second byte of the immediate
+    a.mark_at("PD", 2)
+    a.emit(("push", 0x5b5b5b, 3), "POP")
+    for i in range(nblocks):
+        if i > 0:
+            if has_jd[i]:
+                a.label("L%d" % i)
+            else:
+                a.mark("L%d" % i)
+        # body: a canary store so that executing this block is visible in storage too
+        slot = 0x100 + len(canaries)
+        if rng.random() < 0.8:
+            a.mark("C%d" % len(canaries))
+            a.emit(rng.randint(1, 255), slot, "SSTORE")
+            canaries.append(slot)
+        for _ in range(rng.randint(0, 3)):
+            a.emit(rng.choice([0, 1, 7, 0xff]), "POP")
+        if rng.random() < underflow_p:
+            # an instruction that needs more operands than the (empty) stack holds
+            a.emit(rng.choice(["ADD", "POP", "DUP1", "SWAP1", "MSTORE", "SSTORE", "ISZERO", "JUMP", "JUMPI", "DUP16",
+                               "ADDMOD", "RETURN", "LOG2", "SHA3"]))
+            feats.add("underflow")
+        if rng.random() < big_stack_p:
+            a.emit(bytes([0x5f]) * rng.choice([1023, 1024, 1025, 1030]))
+            feats.add("big-stack")
+        last = i == nblocks - 1
+        r = rng.random()
+        later = [j for j in range(i + 1, nblocks)]
+        if later and r < 0.45:
+            j = rng.choice(later)
+            kind = "symbolic" if rng.random() < symbolic_p else rng.choice(KINDS)
+            cond = rng.choice(["const1", "const0", "sym"])
+            if cond == "sym":
+                a.emit("CALLVALUE")
+            else:
+                a.emit(("push", 1 if cond == "const1" else 0, 1))
+            target_push(kind, j)
+            a.emit("JUMPI")
+            feats.add("JUMPI")
+        elif later and r < 0.75:
+            j = rng.choice(later)
+            target_push("symbolic" if rng.random() < symbolic_p else rng.choice(KINDS), j)
+            a.emit("JUMP")
+            feats.add("JUMP")
+        elif r < 0.93:
+            h = rng.choice(["STOP", "RETURN", "REVERT", "INVALID", "SELFDESTRUCT", "unassigned"])
+            if h == "unassigned":
+                a.emit(bytes([rng.choice(UNASSIGNED)]))
+            else:
+                need = {"RETURN": 2, "REVERT": 2, "SELFDESTRUCT": 1}.get(h, 0)
+                for _ in range(need):
+                    a.emit(("push", 0, 1))
+                a.emit(h)
+            feats.add("halt:" + h)
+    a.labels = {}
+    code = a.assemble()
+    canary_offsets = {a.labels["C%d" % k]: canaries[k] for k in range(len(canaries))}
+    return code, feats, canary_offsets
+
+
